@@ -99,13 +99,14 @@ def units_part(P, R):
         f = P.func(PT, name)
         loops = [l for l in f.node.body if isinstance(l, ast.For)]
         ok = False
+        rname = next((norm(s.value) for s in f.node.body if isinstance(s, ast.Return) and isinstance(s.value, ast.Name)), 'result')
         if loops:
             l = loops[0]
             if isinstance(l.iter, ast.Call) and norm(l.iter.func) == 'enumerate' and norm(l.iter.args[0]) == f.params[-1] and isinstance(l.target, ast.Tuple):
                 i_, j_ = [t.id for t in l.target.elts]
                 reads = {norm(s.value.slice): s.targets[0].id for s in l.body if isinstance(s, ast.Assign) and isinstance(s.value, ast.Subscript) and norm(s.value.value) == f.params[0]}
                 okr = set(reads) == {f'2 * {j_}', f'2 * {j_} + 1'}
-                writes = [s for s in ast.walk(l) if isinstance(s, ast.Assign) and isinstance(s.targets[0], ast.Subscript) and norm(s.targets[0].value) == 'result']
+                writes = [s for s in ast.walk(l) if isinstance(s, ast.Assign) and isinstance(s.targets[0], ast.Subscript) and norm(s.targets[0].value) == rname]
                 okw = bool(writes) and all(norm(s.targets[0].slice) == i_ for s in writes)
                 ok = okr and okw
                 # monotone accumulator: a store nested in an inner loop must be the constant True
@@ -121,7 +122,7 @@ def units_part(P, R):
                                 f'`{norm(s)}` inside the loop over parts/segments can reset a hit found in an earlier part: a point on the first line of a multiline is lost')
         R.check(ok, 'C02.b', f, loops[0] if loops else None, f'{name}: point j = inds[i] is read at (2j, 2j+1) and its answer is written to slot i',
                 f'{name}: read/write indices do not come from the same enumerate(inds)')
-        zero = any(isinstance(s, ast.Assign) and norm(s.targets[0]) == 'result' and norm(s.value).startswith('np.zeros(n') and 'bool' in norm(s.value) for s in f.node.body)
+        zero = any(isinstance(s, ast.Assign) and norm(s.targets[0]) == rname and norm(s.value).startswith('np.zeros(') and 'bool' in norm(s.value) for s in f.node.body)
         R.check(zero, 'C02.b', f, None, f'{name}: the result starts all-False with one slot per selected point', f'{name}: result is not np.zeros(n, bool)', construct=f'{name} result init', nontrivial=False)
     # inds=None -> arange(len(self))
     for name in ('PointArray._intersects_multipoint', 'PointArray._intersects_line', 'PointArray._intersects_polygon'):
@@ -130,7 +131,9 @@ def units_part(P, R):
         R.check(ok, 'C02.b', f, None, f'{name}: inds=None means every element', f'{name}: inds=None is not replaced by arange(len(self))', construct=f'{name} default inds')
     ip = P.func(PT, 'PointArray._intersects_point')
     txt = norm(ip.node)
-    ok = 'flat[inds * 2] == point.x' in txt and 'flat[inds * 2 + 1] == point.y' in txt and 'flat[0::2] == point.x' in txt and 'flat[1::2] == point.y' in txt
+    fl = next((s_.targets[0].id for s_ in walk_own(ip.node) if isinstance(s_, ast.Assign) and isinstance(s_.targets[0], ast.Name) and norm(s_.value) == 'self.flat_values'), 'flat')
+    pt_, inds_ = ip.params[1], ip.params[2]
+    ok = f'{fl}[{inds_} * 2] == {pt_}.x' in txt and f'{fl}[{inds_} * 2 + 1] == {pt_}.y' in txt and f'{fl}[0::2] == {pt_}.x' in txt and f'{fl}[1::2] == {pt_}.y' in txt
     R.check(ok, 'C02.a', ip, None, 'point-vs-point compares x with x (even positions) and y with y (odd positions), also through inds', 'point-vs-point mixes coordinate positions', construct='_intersects_point positions')
 
 
